@@ -139,7 +139,29 @@ __CPROVER_ensures((!TERMINAL(i) && REC(i) == GR) ==> (__CPROVER_old(CNT(GR)) < D
     return c
 
 
-def make_seq_step(nb):
+def scan_loop_contract(nb, donors):
+    """Loop contract of the neighbour scan (used instead of complete unwinding for the 8-neighbour queen grid, whose unwound step did not finish in an
+    hour): slope_max is the sentinel while no strictly lower unmasked neighbour has been met, otherwise the computed slope of a slot already met that
+    is the current receiver (with its distance); every lower slot already met has a computed slope <= slope_max.  Stated at the ghost node (i == G),
+    where the neighbour list is GN; the clauses range over the constant slots 0..nb-1 (linear size, one symbolic iteration instead of nb unrollings)."""
+    lower = "(%k < GN_cnt && !MASKED(GN[%k].idx) && elevation[GN[%k].idx] < elevation[G])"
+    none = conj("%k < nb_k ==> !" + lower, nb)
+    some = disj("%k < nb_k && " + lower + " && REC(i) == GN[%k].idx && DIST(i) == GN[%k].distance && slope_max == GQ[%k]", nb)
+    upper = conj("(%k < nb_k && " + lower + ") ==> GQ[%k] <= slope_max", nb)
+    same = conj("%k < neighbors_n ==> (neighbors[%k].idx == GN[%k].idx && neighbors[%k].distance == GN[%k].distance)", nb)
+    return r"""
+__CPROVER_assigns(nb_k, slope, slope_max, REC(i), DIST(i))
+__CPROVER_loop_invariant(nb_k <= neighbors_n && neighbors_n <= FSL_NBMAX && i < gsize && !TERMINAL(i) && REC(i) < gsize)
+__CPROVER_loop_invariant(i == G ==> (neighbors_n == GN_cnt && %(SAME)s))
+__CPROVER_loop_invariant(slope_max == (-DBL_MAX) || slope_max >= 0)
+__CPROVER_loop_invariant(i == G ==> (slope_max == (-DBL_MAX) ? (REC(i) == i && DIST(i) == 0 && %(NONE)s) : %(SOME)s))
+__CPROVER_loop_invariant(i == G ==> %(UPPER)s)
+__CPROVER_decreases(neighbors_n - nb_k)
+""" % dict(SAME=same, NONE=none, SOME=some, UPPER=upper)
+
+
+
+def make_seq_step(nb, lc=False):
     return Unit(
         name="router_seq_step", file=ROUTER_H,
         anchor=r"void apply_seq\(graph_impl_type& graph_impl, data_array_type& elevation\)",
@@ -148,6 +170,7 @@ def make_seq_step(nb):
         pre=common_pre(nb), defs=DEFS, body_prefix=STEP_LOCALS,
         rules=SCAN_RULES + DONOR_RULES,
         contract=step_contract(nb, True),
+        loops=({0: scan_loop_contract(nb, True)} if lc else None),
     )
 
 
@@ -209,14 +232,14 @@ def defines(nb):
     return ["REC_W=1", "REC_BYTES=8", "DON_W=%d" % (nb + 1), "DON_BYTES=%d" % (8 * (nb + 1)), "FSL_NBMAX=%d" % nb]
 
 
-def seq_groups(nb, tier="quick"):
-    step = make_seq_step(nb)
+def seq_groups(nb, tier="quick", lc=False):
+    step = make_seq_step(nb, lc)
     outer = make_seq_outer(nb)
     g1 = Group(
         name="router.seq.step.nb%d" % nb, units=[is_masked, is_base_level, step],
         harness=harness("router_seq_step", nb, "nondet_size_t(), "),
         entry="h_router_seq_step", enforce="router_seq_step", replace=["grid_neighbors", "fsl_slope_abs"],
-        unwindset={("router_seq_step", 0): nb + 1}, defines=defines(nb),
+        unwindset=(None if lc else {("router_seq_step", 0): nb + 1}), loop_contracts=lc, defines=defines(nb),
         backend="sat", timeout=600, min_obligations=50, tier=tier, replay="replay/routing.cpp",
         clause="C04 at one node (terminal => own receiver, distance 0; own receiver <=> no strictly lower unmasked neighbour; otherwise an "
                "unmasked strictly lower neighbour of maximal computed slope with its grid distance), frame: only the node's own receiver "
@@ -255,7 +278,7 @@ PAR_ANCHOR = r"void apply_par\(graph_impl_type& graph_impl,\s*data_array_type& e
 PAR_SCAN_RULES = [r for r in SCAN_RULES]
 
 
-def make_par_step(nb):
+def make_par_step(nb, lc=False):
     return Unit(
         name="router_par_step", file=ROUTER_H, anchor=PAR_ANCHOR,
         inner=r"for \(auto i = start; i < end; \+\+i\)\s*\{",
@@ -264,6 +287,7 @@ def make_par_step(nb):
         body_prefix="/* locals of the lambda, dead at the loop head */\ndouble slope, slope_max; struct neighbor neighbors[FSL_NBMAX]; size_t neighbors_n;\n",
         rules=PAR_SCAN_RULES,
         contract=step_contract(nb, False),
+        loops=({0: scan_loop_contract(nb, False)} if lc else None),
     )
 
 
@@ -334,14 +358,16 @@ void h_agree(void)
 """
 
 
-def par_groups(nb, tier="quick"):
-    step = make_par_step(nb)
+def par_groups(nb, tier="quick", lc=False):
+    step = make_par_step(nb, lc)
     block = make_par_block(nb)
+    # router.par.block.nb2 fell from 10 s to no answer in 600 s on minisat after two unrelated macro lines were added to models/fsl.h (a SAT
+    # heuristics cliff, not a semantic change: the generated C was identical); cadical does it in 20 s either way
     g1 = Group(
         name="router.par.step.nb%d" % nb, units=[is_masked, is_base_level, step],
         harness=harness("router_par_step", nb, "nondet_size_t(), "),
         entry="h_router_par_step", enforce="router_par_step", replace=["grid_neighbors", "fsl_slope_abs"],
-        unwindset={("router_par_step", 0): nb + 1}, defines=defines(nb),
+        unwindset=(None if lc else {("router_par_step", 0): nb + 1}), loop_contracts=lc, defines=defines(nb),
         backend="sat", timeout=600, min_obligations=50, tier=tier, replay="replay/routing.cpp",
         clause="C04 at one node for the multi-threaded router's loop body; write frame = the node's own receiver and distance cell only "
                "(no donor table, no shared scratch); <= %d neighbours" % nb)
@@ -349,7 +375,7 @@ def par_groups(nb, tier="quick"):
         name="router.par.block.nb%d" % nb, units=[is_masked, is_base_level, step, block],
         harness=harness("router_par_block", nb, "nondet_size_t(), nondet_size_t(), "),
         entry="h_router_par_block", enforce="router_par_block", replace=["router_par_step"], loop_contracts=True,
-        defines=defines(nb), backend="sat", timeout=600, min_obligations=50, tier=tier, replay="replay/routing.cpp",
+        defines=defines(nb), backend="cadical", timeout=600, min_obligations=50, tier=tier, replay="replay/routing.cpp",
         clause="C10 block frame: a worker's block [start,end) establishes C04 on its own nodes and leaves every receiver cell outside "
                "the block, the donor table, the elevation, mask and base levels untouched (disjoint write frames, shared reads only); "
                "<= %d neighbours" % nb)
@@ -555,9 +581,12 @@ PROPS["C06"] = dict(
 
 # thorough tier: the other constant neighbour maxima (4 = rook/bishop raster, 8 = queen raster)
 for _nb in (4, 8):
-    _t = seq_groups(_nb, "thorough") + par_groups(_nb, "thorough")
+    # 8 neighbours: the neighbour scan is closed by a loop contract (scan_loop_contract) instead of being unwound
+    _t = seq_groups(_nb, "thorough", lc=(_nb == 8)) + par_groups(_nb, "thorough", lc=(_nb == 8))
     for _g in _t:
         _g.timeout = 3600
+        if _nb == 8 and ".step." in _g.name:
+            _g.backend = "cadical"   # measured: 433 s (loop contract) where the unwound step did not finish in 3600 s on any back end
     GROUPS["C04"] = GROUPS["C04"] + _t
     GROUPS["C10"] = GROUPS["C10"] + [g for g in _t if ".par." in g.name]
 
